@@ -34,6 +34,7 @@ fn num(s: &str) -> u32 {
 
 pub fn run(sc: &Scenario, sim: &Shared) {
     sim.borrow_mut().big = true;
+    sim.borrow_mut().fifo = sc.fifo;
     let mk_out = |k: PinKind| MockOut(sim.clone(), k);
     let peris = Peripherals {
         spi: MockBus(sim.clone()),
@@ -91,6 +92,7 @@ pub fn run(sc: &Scenario, sim: &Shared) {
             })
         }));
         let mut s = sim.borrow_mut();
+        s.drain();
         s.flush_group();
         // pin state the operation leaves behind: selected chips (mask of LOW chip selects), D/C bits
         let mut m = 0;
